@@ -108,6 +108,16 @@ SKELETONS = [
     "{% set $0 %}x{% endset %}{% set $1 | upper %}y{{ $0 }}{% endset %}{% set $2 = $0 ~ $1 %}{% set $4 = 1 %}{% with %}{% set $3 = 1 %}{% set $6 = 2 %}{% include 'inc' ignore missing with context %}{% endwith %}",
     "{% set $0 = 1 %}{% set $1 = 2 %}{% set $2 = 3 %}{% set $3 = 4 %}{% set $4 = 5 %}{% set $5 = 6 %}{% set $6 = 7 %}{% set $7 = 8 %}{% set $8 = 9 %}{% include ['a', 'b'] without context %}{% include 'c' %}",
     "{% autoescape c %}{% set $0 = 1 %}{% set $1 = 2 %}{{ $2 }}{% call(a, b) $3(1) %}{% set $6 = a %}{% set $7 = b %}{{ $0 }}{% endcall %}{% endautoescape %}{% set $4 = 2 %}{% set $8 = 3 %}{% include 'inc' %}",
+    # several namespaces assigned in one tuple target (one guard per namespace is generated)
+    "{% set $0 = namespace() %}{% set $1 = namespace() %}{% set $2 = namespace() %}{% set $3 = namespace() %}{% set $4 = namespace() %}"
+    "{% set $0.a, $1.b, $2.c, $3.d, $4.e, $0.f = 1, 2, 3, 4, 5, 6 %}{% set $3.x, $2.y, $1.z = 1, 2, 3 %}{{ $0.a }}{% set $4.blk %}v{% endset %}",
+    # constant input to filters / tests whose result is not plain data (generators, views, iterators)
+    "{{ [1, 2, 3]|batch(2) }}{{ [1, 2]|unique }}{{ [3, 1]|select('odd') }}{{ 'ab'|map('upper') }}{{ {'a': 1}|items }}{{ [1, 2]|reverse }}{{ (1, 2)|slice(2) }}"
+    "{{ [1, 2]|map('string')|join($0) }}{{ {'b': 1}|dictsort }}{{ [[1]]|sum(start=[]) }}{{ 'x'|list|groupby(0) }}{{ range(3)|reject('odd') }}{{ cycler(1, 2) is defined }}",
+    # translation blocks with several free and declared variables (extension-generated nodes)
+    "{% trans %}{{ $0 }} {{ $1 }} {{ $2 }} {{ $3 }} {{ $4 }}{% endtrans %}{% trans $5=$0, $6=1 %}{{ $5 }} {{ $7 }} {{ $6 }} {{ $8 }}{% pluralize $6 %}{{ $8 }} {{ $7 }} {{ $2 }}{% endtrans %}"
+    "{% trans trimmed count=$1|length %} {{ count }} {{ $3 }} {{ $0 }} {% pluralize %} {{ $4 }} {{ $0 }} {{ count }} {% endtrans %}{{ _('x') }}{{ ngettext('a', 'b', $2) }}",
+    "{% for $5 in seq %}{% if $5 %}{% continue %}{% endif %}{% do $0.append($5) %}{% trans $1=$5 %}{{ $1 }} {{ $2 }} {{ $3 }}{% endtrans %}{% break %}{% endfor %}{% debug %}",
 ]
 CONFIGS = [dict(), dict(enable_async=True), dict(trim_blocks=True, autoescape=True, optimized=False)]
 CORPUS = []     # (source, config index)
@@ -131,8 +141,13 @@ SEED_SOURCES = {}       # seed -> list (template index x config) of sources, fil
 IN_REPLAY = getattr(getattr(sys.modules.get("__main__"), "__spec__", None), "name", "") == "vfw.replay"
 
 
+EXTENSIONS = ["jinja2.ext.i18n", "jinja2.ext.do", "jinja2.ext.loopcontrols", "jinja2.ext.debug"]
+
+
 def make_env(cfg):
-    return Environment(loader=DictLoader(SUPPORT), **CONFIGS[cfg])
+    env = Environment(loader=DictLoader(SUPPORT), extensions=EXTENSIONS, **CONFIGS[cfg])
+    env.install_null_translations(newstyle=bool(cfg % 2))
+    return env
 
 
 def compile_raw(env, t):
